@@ -242,10 +242,33 @@ func (g *gen) leaf() cond {
 			f = "N"
 			v = int64(int32Vocab[r.Intn(len(int32Vocab))])
 		}
-		return cond{Op: intOps[r.Intn(len(intOps))], Field: f, VI: &v, Text: r.Chance(1, 4)}
+		c := cond{Op: intOps[r.Intn(len(intOps))], Field: f, VI: &v, Text: r.Chance(1, 4)}
+		if r.Chance(1, 2) {
+			// every operand representation the API accepts; one that cannot hold the value
+			// falls back to int64
+			c.As = vlib.Pick(r, "pad", "pad", "plus", "int", "int8", "int16", "int32", "uint", "uint8", "uint16", "uint32")
+		}
+		return c
 	case 2:
+		if r.Chance(1, 5) {
+			// float operator with an integer operand (exactly representable)
+			v := int64(vlib.Pick(r, 0, 1, -1, 2, 100, -3))
+			return cond{Op: floatOps[r.Intn(len(floatOps))], Field: "F", VI: &v,
+				As: vlib.Pick(r, "", "pad", "plus", "int", "int8", "int16", "int32", "uint", "uint8", "uint16", "uint32")}
+		}
 		v := fltVocab[r.Intn(len(fltVocab))]
-		return cond{Op: floatOps[r.Intn(len(floatOps))], Field: "F", VF: &v, Text: r.Chance(1, 4)}
+		c := cond{Op: floatOps[r.Intn(len(floatOps))], Field: "F", VF: &v, Text: r.Chance(1, 4)}
+		if r.Chance(1, 3) {
+			c.As = vlib.Pick(r, "pad", "plus", "exp", "float32")
+			if c.As == "float32" {
+				// only operands that survive the float32 round trip unchanged
+				v = vlib.Pick(r, 0.0, 1, -1, 0.5, 1.5, -2.25, 2, 100)
+			}
+			if c.As == "pad" && (v > 1e15 || v < -1e15 || (v != 0 && v > -1e-6 && v < 1e-6)) {
+				c.As = "exp"
+			}
+		}
+		return c
 	case 3, 4:
 		v := strVocab[r.Intn(len(strVocab))]
 		if r.Chance(1, 3) && len(v) > 1 {
@@ -348,7 +371,22 @@ func genHistory(seed uint64, cfg cfgSpec, no int, thorough bool) history {
 	if cfg.Cache != "delayed" && no%7 == 3 {
 		waitAt = r.Range(5, n-1)
 	}
+	// one maintenance run during the very second a record expires, in a few histories
+	boundaryAt := -1
+	if cfg.Cache != "delayed" && no%8 == 5 {
+		boundaryAt = r.Range(3, n-1)
+	}
 	for i := 0; i < n; i++ {
+		if i == boundaryAt {
+			k := g.key()
+			rs := g.rec(k, false)
+			rs.Edits = []medit{{K: "abs", V: 1}}
+			rs.NilPtr = false
+			h.Ops = append(h.Ops, op{K: "put", Key: k, Rec: &rs})
+			h.Ops = append(h.Ops, op{K: "boundary", Key: k, Off: int64(r.Intn(2))})
+			g.live[k] = false
+			continue
+		}
 		if i == waitAt {
 			k := g.liveKey()
 			rs := g.rec(k, false)
